@@ -16,7 +16,7 @@ _GEN_LEVEL = ("TLC decides the property exhaustively on the TLA+ specification f
               "parameters; exact quantities recomputed with native integers), and the same semantic functions at the real "
               "format size validate recorded calls of the real code step by step. Exhaustive at spec level, directed + "
               "randomised exploration at code level.")
-for _p, _s in [("C03", "C03"), ("C05", "C05"), ("C06", "C06"), ("C04", "C04"), ("C08", "C08"), ("C09", "C09"), ("C10", "C10"), ("C11", "C11"), ("C12", "C12"), ("C13", "C13"), ("C14", "C14"), ("C19", "C19")]:
+for _p, _s in [("C03", "C03"), ("C05", "C05"), ("C06", "C06"), ("C07", "C07"), ("C04", "C04"), ("C08", "C08"), ("C09", "C09"), ("C10", "C10"), ("C11", "C11"), ("C12", "C12"), ("C13", "C13"), ("C14", "C14"), ("C19", "C19")]:
     TEXT[_p] = dict(level_text=_GEN_LEVEL if _p != "C03" else _ARITH_LEVEL, level_note=_ARITH_NOTE,
                     design_ref="DESIGN.md §6 " + _s,
                     technique="TLA+ reference model; TLC exhaustive on small formats + TLC trace validation of recorded real calls at full size")
